@@ -1290,8 +1290,8 @@ def run(ctx):
                "onnxruntime and onnx.reference at every executed binding")
     ctx.assume("tensor data is integer valued (int64 / bool), compared exactly")
     ctx.check_props()
-    from harness import c09_more, c09_rules
-    for fam in FAMILIES + c09_more.FAMILIES + c09_rules.FAMILIES:
+    from harness import c09_accept, c09_more, c09_rules
+    for fam in FAMILIES + c09_more.FAMILIES + c09_rules.FAMILIES + c09_accept.FAMILIES:
         fam(ctx)
     if ctx.tier == "thorough":
         ctx.coqchk(["Props.C09"])
